@@ -19,6 +19,8 @@ pub fn common_prefix_char_size(left: &str, right: &str) -> u32 {
     let mut right_chars = right.chars();
     let mut was_escape = false;
     let mut group_level = 0;
+    let mut class_level = 0;
+    let mut class_start = false;
     let mut i = 0;
 
     loop {
@@ -29,7 +31,21 @@ pub fn common_prefix_char_size(left: &str, right: &str) -> u32 {
             return prefix_length;
         }
 
-        if left_char == '(' && !was_escape {
+        if class_level > 0 {
+            // Inside a character class parentheses are literals, a `]` right after the opening is too
+            if !was_escape {
+                if left_char == '[' {
+                    class_level += 1;
+                } else if left_char == ']' && !class_start {
+                    class_level -= 1;
+                }
+            }
+
+            class_start = class_start && left_char == '^';
+        } else if left_char == '[' && !was_escape {
+            class_level = 1;
+            class_start = true;
+        } else if left_char == '(' && !was_escape {
             group_level += 1;
         } else if left_char == ')' && !was_escape {
             group_level -= 1;
@@ -43,7 +59,7 @@ pub fn common_prefix_char_size(left: &str, right: &str) -> u32 {
 
         i += 1;
 
-        if group_level == 0 && !was_escape {
+        if group_level == 0 && class_level == 0 && !was_escape {
             prefix_length = i;
         }
     }
